@@ -1322,12 +1322,43 @@ fn main() {
             let bad_answer = r.chance(1, 15);
             let sig = if bad_answer { let x = sign_with(key, &key.zone, &[rec(&target, 300, a([9, 9, 9, 9]))], labels, now - 900, now + 3600); x } else { sign_with(key, &key.zone, &data, labels, now - 900, now + 3600) };
             let ce = if labels < ol { name_from_labels(&l[(ol - labels) as usize..]) } else { None };
+            // a third of the runs prove the non-existence with NSEC3 records for the next-closer name instead
+            let use_n3 = ce.is_some() && r.chance(1, 3);
+            let sets = if use_n3 && r.chance(2, 3) { vec![] } else { sets };
             let views: Vec<GView> = sets.iter().map(|s| s.1.clone()).collect();
             let gw: String = views.iter().map(gwords).collect::<Vec<_>>().join(" ");
+            let mut n3sets: Vec<RRset> = vec![]; let mut n3w: Vec<String> = vec![]; let mut tblw = "-".to_string();
+            if use_n3 {
+                let cel = labels_of(ce.as_ref().unwrap()).len();
+                let child = name_from_labels(&l[l.len() - cel - 1..]).unwrap();
+                let hsh = |n: &N| -> Vec<u8> { let h: OwnerHash<Vec<u8>> = domain::dnssec::common::nsec3_hash(n, Nsec3HashAlgorithm::SHA1, 0, &Nsec3Salt::<Bytes>::empty()).unwrap(); h.as_slice().to_vec() };
+                let h = hsh(&child);
+                tblw = format!("0:-:{}:{}", nhex(&child), hex(&h));
+                let b32l = |x: &[u8]| domain::utils::base32::encode_string_hex(x).to_ascii_lowercase().into_bytes();
+                let shift = |x: &[u8], d: i16| { let mut v = x.to_vec(); let k = v.len() - 1; let nv = v[k] as i16 + d; if nv < 0 { v[k - 1] = v[k - 1].wrapping_sub(1); } if nv > 255 { v[k - 1] = v[k - 1].wrapping_add(1); } v[k] = nv as u8; v };
+                for _ in 0..(1 + r.below(2)) {
+                    let (oh, nx): (Vec<u8>, Vec<u8>) = match r.below(6) { 0 | 1 | 2 => (shift(&h, -5), shift(&h, 5)), 3 => (h.clone(), shift(&h, 9)), 4 => (shift(&h, -9), h.clone()), _ => (r.bytes(20), r.bytes(20)) };
+                    let oo = r.chance(1, 4);
+                    let mut ol3 = vec![b32l(&oh)]; ol3.extend(labels_of(&apex));
+                    let owner3 = name_from_labels(&ol3).unwrap();
+                    if n3sets.iter().any(|x| rfc_eq(x.rrs[0].owner(), &owner3)) { continue; }
+                    let types = [Rtype::A, Rtype::RRSIG];
+                    let d = Nsec3::new(Nsec3HashAlgorithm::SHA1, oo as u8, 0, Nsec3Salt::<Bytes>::empty(), OwnerHash::from_octets(Bytes::from(nx.clone())).unwrap(), bitmap(&types));
+                    let n3rec = rec(&owner3, 300, ZD::Nsec3(d));
+                    let good = !r.chance(1, 10);
+                    let sg = if good { sign(key, &[n3rec.clone()]) } else {
+                        let o2 = sign(key, &[rec(&owner3, 300, a([8, 8, 8, 8]))]);
+                        match o2.data() { ZD::Rrsig(g) => Record::new(owner3.clone(), Class::IN, o2.ttl(), ZD::Rrsig(Rrsig::<Bytes, N>::new(Rtype::NSEC3, g.algorithm(), g.labels(), g.original_ttl(), g.expiration(), g.inception(), g.key_tag(), g.signer_name().clone(), g.signature().clone()).unwrap())), _ => o2.clone() } };
+                    n3w.push(format!("1 1 {} {} 1 {} 0 - {} {} 1,46", if good { "Secure" } else { "Bogus" }, nhex(&apex), oo as u8, hex(&b32l(&oh)), hex(&nx)));
+                    n3sets.push(RRset { rrs: vec![n3rec], sigs: vec![sg] });
+                }
+            }
             idx += 1; if !out.wants(idx) { continue; }
-            let c = format!("wild {} {} {} {} {}", nhex(&target), if bad_answer { "Bogus" } else { "Secure" }, nhex(&apex), ce.as_ref().map(|x| nhex(x)).unwrap_or("-".into()), gw);
+            let c = format!("wild {} {} {} {} {} {} {}{}", nhex(&target), if bad_answer { "Bogus" } else { "Secure" }, nhex(&apex), ce.as_ref().map(|x| nhex(x)).unwrap_or("-".into()), tblw, views.len(),
+                gw, if n3w.is_empty() { String::new() } else { format!("{}{}", if gw.is_empty() { "" } else { " " }, n3w.join(" ")) });
             out.begin(&c);
-            let resp = Resp { rcode: Rcode::NOERROR, answer: vec![RRset { rrs: data, sigs: vec![sig] }], authority: sets.iter().map(|s| s.0.clone()).collect() };
+            let mut auth: Vec<RRset> = sets.iter().map(|s| s.0.clone()).collect(); auth.extend(n3sets.iter().cloned());
+            let resp = Resp { rcode: Rcode::NOERROR, answer: vec![RRset { rrs: data, sigs: vec![sig] }], authority: auth };
             let mut m = build_msg(8, &target, Rtype::A, &resp);
             match catch_mut(|| rt.block_on(async { vc.validate_msg(&mut m).await })) {
                 Err(p) => { out.case(&c, "Panic", true, "wildcard_answer"); out.check(false, "panic_validator", &c, &p); }
@@ -1338,7 +1369,8 @@ fn main() {
                     if s == ValidationState::Secure { if let Some(cev) = &ce {
                         let is_star = star(cev).map_or(false, |x| rfc_eq(&x, &target));
                         let covered = views.iter().any(|v| usable(v, &apex) && !rfc_eq(&target, &v.owner) && rfc_between(&target, &v.owner, &v.next));
-                        out.check(is_star || covered, "secure_wildcard_without_nonexistence_proof", &c, "expanded wildcard accepted without an NSEC covering the name");
+                        let covered3 = n3w.iter().any(|x| x.contains(" Secure ")) ;
+                        out.check(is_star || covered || covered3, "secure_wildcard_without_nonexistence_proof", &c, "expanded wildcard accepted without an NSEC / NSEC3 covering the name");
                     } }
                 }
             }
@@ -1480,12 +1512,19 @@ fn main() {
             if sets.is_empty() { continue; }
             let mut auth = vec![{ let x = w.zones[1].get(&papex, Rtype::SOA).unwrap(); RRset { rrs: x.0, sigs: x.1.into_iter().collect() } }];
             auth.extend(sets);
-            let m_ds = build_msg(9, &kid, Rtype::DS, &Resp { rcode: Rcode::NOERROR, answer: vec![], authority: auth });
+            // sometimes the DS reply carries a CNAME RRset in its answer section: at the name (decides) or elsewhere (ignored)
+            let (cn_word, ds_answer): (&str, Vec<RRset>) = match r.below(8) {
+                0 => { let v = vec![rec(&kid, 300, ZD::Cname(Cname::new(nm("a.sec."))))]; ("C1", vec![RRset { sigs: vec![sign(parent, &v)], rrs: v }]) }
+                1 => { let v = vec![rec(&kid, 300, ZD::Cname(Cname::new(nm("a.sec."))))]; ("C2", vec![RRset { sigs: vec![sign(parent, &[rec(&kid, 300, ZD::Cname(Cname::new(nm("b.sec."))))])], rrs: v }]) }
+                2 => { let v = vec![rec(&nm("other.sec."), 300, ZD::Cname(Cname::new(nm("a.sec."))))]; ("C0", vec![RRset { sigs: vec![sign(parent, &v)], rrs: v }]) }
+                _ => ("C0", vec![]),
+            };
+            let m_ds = build_msg(9, &kid, Rtype::DS, &Resp { rcode: Rcode::NOERROR, answer: ds_answer, authority: auth });
             let sc = Script { attack: Attack::None, on_query: 0, pick: 0, raw: vec![(kid.clone(), Rtype::DS.to_int(), m_ds)] };
             let vc = ValidationContext::with_config(w.anchors(), Mock::new(w.clone(), sc), cfg);
             let tbl: Vec<String> = params.iter().filter(|(it, _)| *it <= ci.max(cb) + 6).map(|(it, salt)| format!("{}:{}:{}:{}", it, hex(salt), nhex(&target), hex(&hash(&target, *it, salt)))).collect();
             idx += 1; if !out.wants(idx) { continue; }
-            let c = format!("dsproof {} {} {} {} {}", nhex(&target), ci, cb, if tbl.is_empty() { "-".to_string() } else { tbl.join(",") }, words.join(" "));
+            let c = format!("dsproof {} {} {} {} {} {}", nhex(&target), ci, cb, if tbl.is_empty() { "-".to_string() } else { tbl.join(",") }, cn_word, words.join(" "));
             out.begin(&c);
             let resp = Resp { rcode: Rcode::NOERROR, answer: vec![RRset { rrs: vec![rec(&target, 300, a([198, 51, 100, 9]))], sigs: vec![] }], authority: vec![] };
             let mut m = build_msg(13, &target, Rtype::A, &resp);
@@ -1835,6 +1874,8 @@ fn main() {
             out.check(s == Some(ValidationState::Secure), "honest_not_secure", &c, &format!("{:?}", s.map(st)));
         }
     }
+    struct Roll { what: &'static str, anchor: bool, vc: ValidationContext<Mock>, mock: Mock, apex: N, owner: N, old: ZKey, newk: ZKey, line: String, must_expire: bool, phase1_ok: bool, t1: u32 }
+    let mut rolls_phase2: Vec<Roll> = vec![];
     // (5a') a signature that expires between two validations on ONE context: the second verdict must not rest on
     // the first (the signature cache must not outlive the validity period).  Deterministic: the second validation
     // starts only after the clock has passed the expiration; if the first one came too late the run is skipped and counted.
@@ -1851,6 +1892,41 @@ fn main() {
         let exp = t0 + 2;
         let sig = sign_with(kz, &kz.zone, &rrs, 3, t0 - 600, exp);
         let resp = Resp { rcode: Rcode::NOERROR, answer: vec![RRset { rrs, sigs: vec![sig] }], authority: vec![] };
+        // key rollover runs (phase 1 here, phase 2 after the wait below): a zone's DNSKEY RRset {real key, old key} is
+        // validated, the old key signs data; then the old key is withdrawn.  Once the signature / TTL that justified the
+        // cached node has run out, data signed by the withdrawn key must not validate any more.
+        for (what, zi, short_sig, short_ttl, on_ds) in [("anchor DNSKEY signature expires", 0usize, true, false, false), ("anchor DNSKEY TTL runs out", 0, false, true, false), ("anchor control", 0, false, false, false),
+                                                        ("child DNSKEY signature expires", 2, true, false, false), ("child DNSKEY TTL runs out", 2, false, true, false),
+                                                        ("child DS signature expires", 2, true, false, true), ("child DS TTL runs out", 2, false, true, true), ("child control", 2, false, false, false)] {
+            idx += 1; if !out.wants(idx) { continue; }
+            let zz = &w.zones[zi];
+            let real = zz.key.as_ref().unwrap();
+            let old = gen_key_flags(&zz.apex, 256); let newk = gen_key_flags(&zz.apex, 256);
+            let dkr = |k: &ZKey, ttl: u32| rec(&k.zone, ttl, ZD::Dnskey(k.dnskey.clone()));
+            let t1 = now_u32();
+            let long_exp = t1 + 86400;
+            let (kttl, kexp) = if on_ds { (3600u32, long_exp) } else { (if short_ttl { 2 } else { 3600 }, if short_sig { t1 + 2 } else { long_exp }) };
+            let keyset = vec![dkr(real, kttl), dkr(&old, kttl)];
+            let ksig = sign_with(real, &real.zone, &keyset, nlabels(&zz.apex), t1 - 600, kexp);
+            let mut raws = vec![(zz.apex.clone(), Rtype::DNSKEY.to_int(), build_msg(9, &zz.apex, Rtype::DNSKEY, &Resp { rcode: Rcode::NOERROR, answer: vec![RRset { rrs: keyset, sigs: vec![ksig] }], authority: vec![] }))];
+            let (dttl, dexp) = if on_ds { (if short_ttl { 2u32 } else { 300 }, if short_sig { t1 + 2 } else { long_exp }) } else { (300, long_exp) };
+            if zi != 0 {
+                let pk = w.zones[1].key.as_ref().unwrap();
+                let dsr = vec![rec(&zz.apex, dttl, ds_of(real))];
+                let dsig = sign_with(pk, &pk.zone, &dsr, nlabels(&zz.apex), t1 - 600, dexp);
+                raws.push((zz.apex.clone(), Rtype::DS.to_int(), build_msg(9, &zz.apex, Rtype::DS, &Resp { rcode: Rcode::NOERROR, answer: vec![RRset { rrs: dsr, sigs: vec![dsig] }], authority: vec![] })));
+            }
+            let mock = Mock::new(w.clone(), Script { attack: Attack::None, on_query: 0, pick: 0, raw: raws });
+            let vc = ValidationContext::new(w.anchors(), mock.clone());
+            let owner = if zi == 0 { nm("ns.") } else { nm("roll.zone.sec.") };
+            let d1 = vec![rec(&owner, 300, a([10, 0, 0, 1]))];
+            let c = format!("e2e rollover ({}): {} A signed by the old key, first validation", what, owner);
+            let s1 = verdict(&mut out, &vc, &c, &owner, Rtype::A, &Resp { rcode: Rcode::NOERROR, answer: vec![RRset { sigs: vec![sign(&old, &d1)], rrs: d1 }], authority: vec![] });
+            let phase1_ok = s1 == Some(ValidationState::Secure) && now_u32() <= t1 + 1;
+            let line = if zi == 0 { format!("anchorttl {} N2 604800 {} {} {} {}", t1, kttl, kttl, kttl, kexp) }
+                       else { format!("childttl {} N2 290 {} {} {} {} {} {} {} {}", t1, dttl, dttl, dttl, dexp, kttl, kttl, kttl, kexp) };
+            rolls_phase2.push(Roll { what, anchor: zi == 0, vc, mock, apex: zz.apex.clone(), owner, old, newk, line, must_expire: short_sig || short_ttl, phase1_ok, t1 });
+        }
         idx += 1;
         if out.wants(idx) {
             let c = format!("e2e expiry shortlived.zone.sec. A, RRSIG expiring at {}: validated at {} and again after the expiration on the same context", exp, t0);
@@ -1871,6 +1947,35 @@ fn main() {
                         out.check(s != ValidationState::Secure, "secure_with_expired_signature_cached", &c, "a signature validated before its expiration is still accepted after it (signature cache)")
                     }
                 }
+            }
+        }
+    }
+    // phase 2 of the rollover runs
+    if !ar.extra.iter().any(|x| x == "--no-wait") {
+        for rl in rolls_phase2.drain(..) {
+            let zi = if rl.anchor { 0 } else { 2 };
+            let zz = &w.zones[zi];
+            let real = zz.key.as_ref().unwrap();
+            if !rl.phase1_ok { out.count("rollover_case_skipped_first_validation_late"); continue; }
+            while now_u32() <= rl.t1 + 4 { std::thread::sleep(std::time::Duration::from_millis(200)); out.begin("rollover wait"); }
+            // the old key is withdrawn: the zone now publishes {real key, new key}, everything signed for a day
+            let keyset = vec![rec(&rl.apex, 3600, ZD::Dnskey(real.dnskey.clone())), rec(&rl.apex, 3600, ZD::Dnskey(rl.newk.dnskey.clone()))];
+            let ksig = sign(real, &keyset);
+            rl.mock.0.script.lock().unwrap().raw = vec![(rl.apex.clone(), Rtype::DNSKEY.to_int(), build_msg(9, &rl.apex, Rtype::DNSKEY, &Resp { rcode: Rcode::NOERROR, answer: vec![RRset { rrs: keyset, sigs: vec![ksig] }], authority: vec![] }))];
+            let t2 = now_u32();
+            let d2 = vec![rec(&rl.owner, 300, a([10, 0, 0, 2]))];
+            let c = format!("e2e rollover ({}): {} A signed by the withdrawn key at {} (DNSKEY RRset validated at {})", rl.what, rl.owner, t2, rl.t1);
+            out.oracle_case(&c, true, "e2e_rollover");
+            let s2 = verdict(&mut out, &rl.vc, &c, &rl.owner, Rtype::A, &Resp { rcode: Rcode::NOERROR, answer: vec![RRset { sigs: vec![sign(&rl.old, &d2)], rrs: d2 }], authority: vec![] });
+            let Some(s2) = s2 else { continue; };
+            out.case(&rl.line.replace("N2", &t2.to_string()), if s2 == ValidationState::Secure { "true" } else { "false" }, true, "node_validity");
+            if rl.must_expire {
+                out.check(s2 != ValidationState::Secure, "secure_with_withdrawn_key", &c, "the cached node outlived the signature / TTL that justified it: a withdrawn key still validates");
+                let d3 = vec![rec(&rl.owner, 300, a([10, 0, 0, 3]))];
+                let c3 = format!("e2e rollover ({}): {} A signed by the new key after the rollover", rl.what, rl.owner);
+                // the failed attempt above may have left a bogus node behind for max_bogus_validity: use the new key on a fresh name lookup only if the node is gone
+                let s3 = verdict(&mut out, &ValidationContext::new(w.anchors(), rl.mock.clone()), &c3, &rl.owner, Rtype::A, &Resp { rcode: Rcode::NOERROR, answer: vec![RRset { sigs: vec![sign(&rl.newk, &d3)], rrs: d3 }], authority: vec![] });
+                out.check(s3 == Some(ValidationState::Secure), "honest_not_secure", &c3, &format!("{:?}", s3.map(st)));
             }
         }
     }
@@ -1973,6 +2078,25 @@ fn main() {
                     out.check(s != Some(ValidationState::Secure), "secure_nsec3_incomplete_proof", &c, "name error accepted as secure");
                 }
             }
+        }
+    }
+    // (5b') name error although the wildcard at the closest encloser exists: the record sent for the wildcard MATCHES it
+    // (NSEC3: owner hash = hash of the wildcard; NSEC: owner = the wildcard) instead of covering it
+    {
+        let vc = ValidationContext::new(w.anchors(), Mock::new(w.clone(), quiet.clone()));
+        for (zname, nsec3) in [("n3.sec.", true), ("zone.sec.", false)] {
+            let z = w.zones.iter().find(|z| rfc_eq(&z.apex, &nm(zname))).unwrap();
+            let q = nm(&format!("x.wild.{}", zname)); let ce = nm(&format!("wild.{}", zname)); let wc = star(&ce).unwrap();
+            let soa_set = set_of(z.get(&z.apex, Rtype::SOA).unwrap());
+            let auth: Vec<RRset> = if nsec3 { vec![soa_set, set_of(z.n3_match(&ce).unwrap()), set_of(z.n3_cover(&q).unwrap()), set_of(z.n3_match(&wc).unwrap())] }
+                                   else { vec![soa_set, set_of(z.covering(&q).unwrap()), set_of(z.get(&wc, Rtype::NSEC).unwrap())] };
+            let mut dedup: Vec<RRset> = vec![];
+            for s0 in auth { if !dedup.iter().any(|x| rfc_eq(x.rrs[0].owner(), s0.rrs[0].owner()) && x.rrs[0].rtype() == s0.rrs[0].rtype()) { dedup.push(s0); } }
+            idx += 1; if !out.wants(idx) { continue; }
+            let c = format!("e2e NXDOMAIN {} although {} exists: the {} for the wildcard matches it instead of covering it", q, wc, if nsec3 { "NSEC3" } else { "NSEC" });
+            out.oracle_case(&c, true, "e2e_nsec3_proof");
+            let s = verdict(&mut out, &vc, &c, &q, Rtype::A, &Resp { rcode: Rcode::NXDOMAIN, answer: vec![], authority: dedup });
+            out.check(s != Some(ValidationState::Secure), "secure_nxdomain_wildcard_exists", &c, "name error accepted although the wildcard that answers the name exists");
         }
     }
     // (5c) child / anchor DNSKEY RRset not signed by the key the DS (trust anchor) vouches for
